@@ -52,6 +52,11 @@ structure Config where
   stopper : Bool    -- is there a thread T2 requesting stop on the awaiting receiver's source
   late : Bool := false   -- T2 first waits until T1 has finished (stop after the result is available)
   detached : Bool := false   -- spawn_detached instead of spawn_future: there is no future at all
+  /- The two flags below do NOT describe /repo.  They switch on the repairs proposed in
+     tools/checks/c09_proposed_fixes.md so that their effect on `safe` can be evaluated; every
+     configuration tied to the real code has them off. -/
+  fixA : Bool := false   -- the continuation destroys the abandon stop callback BEFORE it reads state_
+  fixB : Bool := false   -- drop() negotiates deletion when it reads abandoned / complete
 
 /-- Call frames.  Frame kinds: 0 connect, 1 start, 2 the future's continuation, 3 abandon() (the
     stop callback), 4 request_stop on the receiver's source, 5 drop(), 6 destroy a connected future,
@@ -207,6 +212,11 @@ def stepFrame (cfg : Config) (s : St) (t : Nat) (kind arg pc : Nat) : Option (Lb
     | 1, 3 => some (ev t "fut.started", pop s t)
     -- ---------------- the future's continuation (let_value successor) on thread t
     | 2, 0 =>   -- state = state_.load()
+      if cfg.fixA && arg = 0 then   -- (proposed fix A: deregister the stop callback first)
+        match deregister s t with
+        | none => none
+        | some s1 => some (tau t, gotoA s1 t 7 0)
+      else
       let s1 := touch s
       if s1.st = sAbandoned then some (tau t, gotoA s1 t sAbandoned 1)
       else some (tau t, gotoA s1 t (s1.st + 8) 2)
@@ -217,6 +227,7 @@ def stepFrame (cfg : Config) (s : St) (t : Nat) (kind arg pc : Nat) : Option (Lb
     | 2, 2 =>   -- build the result sender (moves values_/error_ out), scope_guard runs deleter_
       if own = 1 then some (ev t "block.free", goto (deleteBlock s lst) t 3) else none
     | 2, 3 =>   -- nest_receiver::complete destroys the future's operation: stop callback deregistered
+      if cfg.fixA then some (tau t, goto s t 4) else
       match deregister s t with
       | none => none
       | some s1 => some (tau t, goto s1 t 4)
@@ -252,6 +263,8 @@ def stepFrame (cfg : Config) (s : St) (t : Nat) (kind arg pc : Nat) : Option (Lb
       let s1 := touch s
       if s1.st = sInit then some (tau t, goto s1 t 2)
       else if s1.st = sValue || s1.st = sError || s1.st = sDone then some (tau t, gotoA s1 t s1.st 4)
+      else if cfg.fixB then   -- (proposed fix B)
+        (if s1.st = sAbandoned then some (tau t, goto s1 t 7) else some (tau t, gotoA s1 t sComplete 5))
       else some (ev t "terminate", kill { s1 with term := true } t)     -- default: std::terminate()
     | 5, 2 => some (tau t, goto { touch s with opStop := true, dropSawInit := true } t 3)
     | 5, 3 =>   -- CAS init -> complete
@@ -261,6 +274,10 @@ def stepFrame (cfg : Config) (s : St) (t : Nat) (kind arg pc : Nat) : Option (Lb
     | 5, 4 => if s.evt = 2 then some (tau t, goto (touch s) t 5) else none   -- while (!evt_.ready());
     | 5, 5 => some (ev t "block.free", goto (deleteBlock s lst) t 6)
     | 5, 6 => some (ev t "fut.drop.end", pop s t)
+    | 5, 7 =>   -- (proposed fix B) CAS abandoned -> complete; whoever FAILS deletes
+      let s1 := touch s
+      if s1.st = sAbandoned then some (tau t, goto { s1 with st := sComplete } t 6)
+      else some (tau t, gotoA s1 t sComplete 5)
     -- ---------------- destroy a connected, never started future: callback first, then drop()
     | 6, 0 => some (ev t "fut.drop.begin", goto s t 1)
     | 6, 1 =>
